@@ -90,7 +90,9 @@ class StubMeasurement:
         from resonaate.physics.measurements import IsAngle
 
         self._specs = specs
-        self._labels = [f"{label_prefix}{i}" for i in range(len(specs))]
+        # component labels in declared order are deliberately NOT in alphabetical order (real label lists such as
+        # ["range_km", "azimuth_rad"] are not either): nothing may re-order the components by name
+        self._labels = [f"{label_prefix}{chr(122 - i % 26)}{i}" for i in range(len(specs))]
         self._angular = [IsAngle(s["flag"]) if s["t"] == "ang" else IsAngle.NOT_ANGLE for s in specs]
         self.n_calls = 0
 
